@@ -285,7 +285,7 @@ pub fn run_eval(w: &mut World, plan: &Plan, sched: &Sched, opts: &Opts) -> EvalO
     let mut cur_rec: BTreeMap<String, String> = BTreeMap::new();
     let mut states_seen: BTreeMap<String, String> = BTreeMap::new();
     let mut offers_in_log: BTreeMap<String, usize> = BTreeMap::new();
-    let mut was_finished = false;
+    let was_finished = false;
     let bound = 4 * njobs + 8;
     loop {
         // ---- transition log (C17, includes the intermediate states inside one call)
@@ -506,10 +506,13 @@ pub fn run_eval(w: &mut World, plan: &Plan, sched: &Sched, opts: &Opts) -> EvalO
             if !ready.is_empty() || !eng_running.is_empty() {
                 res.v("C05", "finished-but-ready-or-running", format!("ready {:?} running {:?}", ready, eng_running));
             }
-            if was_finished || running.is_empty() {
-                break;
+            if !running.is_empty() {
+                res.v("C17", "finished-while-driver-has-running-jobs", format!("{:?}", running));
             }
-            was_finished = true;
+            break;
+        }
+        if res.aborted {
+            break;
         }
         let startable: Vec<String> = ready.iter().filter(|j| !started.contains(*j)).cloned().collect();
         if !fin && startable.is_empty() && running.is_empty() {
@@ -567,8 +570,8 @@ pub fn run_eval(w: &mut World, plan: &Plan, sched: &Sched, opts: &Opts) -> EvalO
                 if !eng_running.is_empty() {
                     res.v("C10", "running-nonempty-after-abort", format!("{:?}", eng_running));
                 }
-                res.transitions.extend(take_transitions());
-                break;
+                // one more round of the monitors (C17 consistency after the abort), then out
+                continue;
             }
         }
         // ---- C20 probes
